@@ -1411,20 +1411,88 @@ func (w *wrapperCtx) checkKernelArgs() {
 			a := args[ob+k]
 			okey := fmt.Sprintf("%s:output#%d", key, k)
 			root, slices, ok := w.rootOfView(a)
-			if !ok || w.roleOfRoot(root) != "outputs" || len(slices) != 1 {
+			if !ok || w.roleOfRoot(root) != "outputs" || len(slices) < 1 || len(slices) > 2 {
 				w.r.Fail("R04.5", okey, w.p.Pos(m.KernelCall.Pos()), fmt.Sprintf("kernel argument %d is not a per-cell view of Run's outputs", ob+k))
 				continue
 			}
-			sa := callArgs(slices[0].Common())
-			pv, unk := w.vecElem(sa[0], ocd, slices[0])
-			sv, unk2 := w.vecElem(sa[1], ocd, slices[0])
-			if unk != "" || unk2 != "" || !allConst(pv, int64(k)) || !allConst(sv, 1) {
-				w.r.Fail("R04.5", okey, w.p.Pos(slices[0].Pos()), fmt.Sprintf("output %d (%s) view is not cut at output row %d with extent 1", k, m.Outputs[k], k))
+			// a view that is written through stays a view: Reshape aliases only what is contiguous (or a single run), so
+			// on the way from the output array to the kernel it is applied only to cuts of extent one in all dimensions
+			// but one — a block of several rows of a larger output array is gathered into a copy, and the writes are lost
+			if why := w.reshapedBlock(slices); why != "" {
+				w.r.Fail("R04.5", okey, w.p.Pos(slices[len(slices)-1].Pos()), fmt.Sprintf("output %d (%s): %s", k, m.Outputs[k], why))
 				continue
+			}
+			if len(slices) == 1 {
+				sa := callArgs(slices[0].Common())
+				pv, unk := w.vecElem(sa[0], ocd, slices[0])
+				sv, unk2 := w.vecElem(sa[1], ocd, slices[0])
+				if unk != "" || unk2 != "" || !allConst(pv, int64(k)) || !allConst(sv, 1) {
+					w.r.Fail("R04.5", okey, w.p.Pos(slices[0].Pos()), fmt.Sprintf("output %d (%s) view is not cut at output row %d with extent 1", k, m.Outputs[k], k))
+					continue
+				}
+			} else {
+				// the cell's block first (from output row 0), the row out of it second
+				inner, outer := slices[0], slices[1]
+				oa, ia := callArgs(outer.Common()), callArgs(inner.Common())
+				opv, unk := w.vecElem(oa[0], ocd, outer)
+				ipv, unk2 := w.vecElem(ia[0], ocd, inner)
+				isv, unk3 := w.vecElem(ia[1], ocd, inner)
+				if unk != "" || unk2 != "" || unk3 != "" || !allConst(opv, 0) || !allConst(ipv, int64(k)) || !allConst(isv, 1) {
+					w.r.Fail("R04.5", okey, w.p.Pos(inner.Pos()), fmt.Sprintf("output %d (%s) view is not cut at output row %d with extent 1 of the cell's block of outputs", k, m.Outputs[k], k))
+					continue
+				}
 			}
 			w.r.OK("R04.5", fmt.Sprintf("%s: kernel arg %d = outputs[i, %d, :]", key, ob+k, k))
 		}
 	}
+}
+
+// reshapedBlock: one of the cuts is reshaped although it spans more than one position in two or more dimensions.
+func (w *wrapperCtx) reshapedBlock(slices []*ssa.Call) string {
+	for _, sl := range slices {
+		reshaped := false
+		for _, ref := range refs(sl) {
+			if c, ok := ref.(*ssa.Call); ok {
+				if nm := callName(c.Common()); (nm == "MustReshape" || nm == "Reshape" || nm == "ReshapeFast") && recvOf(c.Common()) == ssa.Value(sl) {
+					reshaped = true
+				}
+			}
+		}
+		if !reshaped {
+			continue
+		}
+		size := callArgs(sl.Common())[1]
+		wide := 0
+		rank := int64(6)
+		if os := origins(w.argFor(size)); len(os) == 1 && os[0] != nil {
+			switch b := vecBase(os[0]).(type) {
+			case *ssa.Alloc:
+				if at, ok := b.Type().Underlying().(*types.Pointer).Elem().Underlying().(*types.Array); ok {
+					rank = at.Len()
+				}
+			case *ssa.MakeSlice:
+				if c, isC := constInt(b.Len); isC {
+					rank = c
+				}
+			}
+		}
+		for d := int64(0); d < rank; d++ {
+			sv, unk := w.vecElem(size, d, sl)
+			if unk != "" || len(sv) == 0 {
+				if d == 0 {
+					return "the extent of a reshaped cut of the outputs is undetermined"
+				}
+				break
+			}
+			if !allConst(sv, 1) {
+				wide++
+			}
+		}
+		if wide > 1 {
+			return "a cut of the output array spanning several positions in more than one dimension is reshaped on the way to the kernel: for an output array larger than the run that block is not contiguous, Reshape gathers it into a copy, and what the kernel writes never reaches the caller's array"
+		}
+	}
+	return ""
 }
 
 func describeIdx(v ssa.Value) string {
